@@ -1,0 +1,118 @@
+//go:build verif
+
+package agent
+
+// Verification hooks (add-only): a recording streamClient and constructors for the
+// IPC event stream and query response stream over it (C25).
+
+import (
+	"errors"
+	"log"
+	"io"
+	"sync"
+	"sync/atomic"
+
+	"github.com/hashicorp/serf/serf"
+)
+
+// VerifRecord is one (header, body) pair handed to streamClient.Send.
+type VerifRecord struct {
+	Seq     uint64
+	Error   string
+	Kind    string // user | query | member | ack | response | done | log | other
+	Event   string // Event field of event records
+	Name    string // user/query name, From of query records, joined member names
+	Payload []byte
+	ID      uint64
+}
+
+// VerifRecorder implements streamClient. When gated, every Send first waits for a
+// token (Release), so the harness controls how fast the "client" consumes.
+type VerifRecorder struct {
+	mu        sync.Mutex
+	recs      []VerifRecord
+	tokens    chan struct{}
+	entered   atomic.Int64
+	completed atomic.Int64
+	nextID    atomic.Uint64
+	FailAt    int64 // the FailAt-th Send (1-based) and all later ones fail; 0 = never
+}
+
+func NewVerifRecorder(gated bool) *VerifRecorder {
+	r := &VerifRecorder{}
+	if gated {
+		r.tokens = make(chan struct{}, 1<<20)
+	}
+	return r
+}
+
+func (r *VerifRecorder) Send(h *responseHeader, obj any) error {
+	n := r.entered.Add(1)
+	if r.tokens != nil {
+		<-r.tokens
+	}
+	defer r.completed.Add(1)
+	if r.FailAt > 0 && n >= r.FailAt {
+		return errors.New("verif: send failed")
+	}
+	rec := VerifRecord{Seq: h.Seq, Error: h.Error, Kind: "other"}
+	switch b := obj.(type) {
+	case *userEventRecord:
+		rec.Kind, rec.Event, rec.Name, rec.Payload, rec.ID = "user", b.Event, b.Name, b.Payload, uint64(b.LTime)
+	case *queryEventRecord:
+		rec.Kind, rec.Event, rec.Name, rec.Payload, rec.ID = "query", b.Event, b.Name, b.Payload, b.ID
+	case *memberEventRecord:
+		rec.Kind, rec.Event = "member", b.Event
+		for i, m := range b.Members {
+			if i > 0 {
+				rec.Name += ","
+			}
+			rec.Name += m.Name
+		}
+	case *queryRecord:
+		rec.Kind, rec.Name, rec.Payload = b.Type, b.From, b.Payload
+	case *logRecord:
+		rec.Kind, rec.Name = "log", b.Log
+	}
+	r.mu.Lock()
+	r.recs = append(r.recs, rec)
+	r.mu.Unlock()
+	return nil
+}
+
+func (r *VerifRecorder) RegisterQuery(q *serf.Query) uint64 { return r.nextID.Add(1) }
+
+func (r *VerifRecorder) String() string { return "verif-recorder" }
+
+// Release lets n more Sends proceed.
+func (r *VerifRecorder) Release(n int) {
+	for i := 0; i < n; i++ {
+		r.tokens <- struct{}{}
+	}
+}
+
+func (r *VerifRecorder) Entered() int64   { return r.entered.Load() }
+func (r *VerifRecorder) Completed() int64 { return r.completed.Load() }
+
+func (r *VerifRecorder) Records() []VerifRecord {
+	r.mu.Lock()
+	defer r.mu.Unlock()
+	return append([]VerifRecord{}, r.recs...)
+}
+
+// VerifEventStream wraps the real eventStream (newEventStream: 512-slot channel + stream goroutine).
+type VerifEventStream struct{ es *eventStream }
+
+func VerifNewEventStream(rec *VerifRecorder, filter string, seq uint64) *VerifEventStream {
+	return &VerifEventStream{es: newEventStream(rec, ParseEventFilter(filter), seq, log.New(io.Discard, "", 0))}
+}
+
+func (v *VerifEventStream) HandleEvent(e serf.Event) { v.es.HandleEvent(e) }
+func (v *VerifEventStream) Stop()                    { v.es.Stop() }
+func (v *VerifEventStream) BufLen() int              { return len(v.es.eventCh) }
+func (v *VerifEventStream) BufCap() int              { return cap(v.es.eventCh) }
+
+// VerifQueryStream runs the real queryResponseStream.Stream to completion.
+func VerifQueryStream(rec *VerifRecorder, seq uint64, resp *serf.QueryResponse) {
+	newQueryResponseStream(rec, seq, log.New(io.Discard, "", 0)).Stream(resp)
+}
